@@ -53,15 +53,15 @@ def run(ck):
     # the writer loops forward over its slice argument
     sap = ck.anchor(A["save_applied"])
     if sap is not None:
-        loops = pt.iterator_loops(sap)
-        fw = [il for il in loops if "core::slice::iter::Iter<" in il["iter_ty"] and "Rev<" not in il["iter_ty"]
-              and il["callee"]["path"].endswith("Iterator::next")]
-        ck.require(len(fw) == 1 and len(loops) == 1, "C09-R1", "names appended in series order",
-                   "the log writer does not iterate forward over its slice (%s)" % [il["iter_ty"] for il in loops], sap.where(),
+        its = pt.iterations(sap, prog)
+        fw = [it for it in its if "core::slice::iter::Iter<" in it["iter_ty"] and it["forward"]]
+        ck.require(len(fw) == 1 and len(its) == 1, "C09-R1", "names appended in series order",
+                   "the log writer iterates %s" % [(it["kind"], it["iter_ty"]) for it in its], sap.where(),
                    ok_detail=fw[0]["iter_ty"] if fw else "")
         # what is iterated is the slice parameter
-        for il in fw:
-            locs = df.operand_trace(sap, il["next_term"]["args"][0])
+        for it in fw:
+            op = it["il"]["next_term"]["args"][0] if it["kind"] == "loop" else it["term"]["args"][0]
+            locs = df.operand_trace(sap, op)
             ck.require(2 in locs, "C09-R1", "the loop iterates the slice argument", "iterator does not derive from the slice parameter", sap.where())
 
     # ---- R2 ------------------------------------------------------------------------------------------
